@@ -40,6 +40,39 @@ def run(tier, seed, work, replay):
         "Trace_KMNetblock.cfg", lambda ev: dict(_c11.sig(ev), surface="address-extension"),
         lambda e: (e["case"]["site"], e["case"]["ext"], e["out"]["panic"]), guard_prefixes=["G_C10_NoPanic"], harness_prop="C11")
     _merge(res, sub, "address_extension")
+    # request shapes: every registered route x GET/POST x malformed headers / cookies / escapes / bodies
+    import engine as E
+    binary = E.build_harness(work)
+    known = E.load_known()
+
+    def shapes(tag, rows=None):
+        env = {}
+        cp = None
+        if rows is not None:
+            cp = work.path("shape-cases-%s.ndjson" % tag)
+            E.write_ndjson(cp, rows)
+        epath, _ = E.run_harness(binary, "C10shapes", work, cases=cp, events=work.path("shape-events-%s.ndjson" % tag), env=env, timeout=1200)
+        evs = sorted(E.read_ndjson(epath), key=lambda e: e["i"])
+        E.write_ndjson(epath, evs)
+        return evs, E.monitor_chunked(work, "Trace_KMShapes", "Trace_KMShapes.cfg", epath, res.cov, chunk=4000, par=4)
+    sevs, sdevs = shapes("all")
+    res.cov["sweep_request_shapes"] = {"events": len(sevs), "panics": sum(1 for e in sevs if e["out"]["panic"]),
+                                        "routes": len({e["case"]["route"] for e in sevs}), "shapes": len({e["case"]["shape"] for e in sevs})}
+    res.cov["evaluations"] = res.cov.get("evaluations", 0) + len(sevs)
+    res.cov["traces_validated_against_impl"] = res.cov.get("traces_validated_against_impl", 0) + len(sevs)
+    if sdevs:
+        # a panic is believed when the same (route, method, shape) panics again in a second, fresh run
+        sevs2, sdevs2 = shapes("confirm")
+        again = {(sevs2[d["line"] - 1]["case"]["route"], sevs2[d["line"] - 1]["case"]["method"], sevs2[d["line"] - 1]["case"]["shape"]) for d in sdevs2}
+        for d in sdevs:
+            ev = sevs[d["line"] - 1]
+            key = (ev["case"]["route"], ev["case"]["method"], ev["case"]["shape"])
+            if key not in again:
+                res.notes.append("shape panic %s did not reproduce; ignored" % (key,))
+                continue
+            sig = {"action": "Shape", "guards": d["guards"], "route": ev["case"]["route"], "shape": ev["case"]["shape"], "surface": "request-shape"}
+            if res.classify(sig, ev, known) == "violation":
+                res.sample({"deviation": d, "event": ev})
     if tier != "quick":
         n = 6000
         sub, _ = tablecheck.run_table(
